@@ -9,6 +9,8 @@ import TapkeeVerif.Proofs.CoverFinal
 import TapkeeVerif.Proofs.CoverBuildCreate
 import TapkeeVerif.Proofs.CoverBuildFuel
 import TapkeeVerif.Proofs.CoverBuildMono
+import TapkeeVerif.Proofs.CoverFuel
+import TapkeeVerif.Proofs.CoverBuildLeaf
 /-!
 # Property C02 — all three neighbour searches return exactly the k nearest other samples
 
@@ -132,21 +134,25 @@ theorem three_methods_agree {cb : Cb α K} {pop : List (α × K) → List (α ×
 end
 
 
-/-! ### cover tree batch query: `cover_query_exact_partial`
+/-! ### cover tree batch query: `cover_query_fuel_suffices`, `cover_query_exact`, `cover_tree_exact`
 
 Subject: `CoverTree.batchQuery` — the model of `k_nearest_neighbor` / `internal_batch_nearest_neighbor` /
 `descend` / `copy_zero_set` / `copy_cover_sets` / `brute_nearest` / `update` (code as of the repair F-COVER-COPY
-585dcb2) on a given tree.  **Proved**: on every well-formed tree (`CoverTree.wfTree`; the tree the real
-`batch_create` builds is checked against it on every run) and for every metric, whatever the model returns is
-right: every query sample gets a result, and every result `q :: cands` has duplicate-free candidates containing
-every sample near `q` (`CoverTree.Near`: no `K0 = k+1` distinct samples are all strictly closer)
-— `cover_query_exact_partial`; together with the wrapper this gives exact neighbour lists — `cover_tree_exact_partial`.
+585dcb2) on a given tree.  **Proved** (total correctness): on every well-formed tree (`CoverTree.wfTree`) whose
+childless nodes all carry `leaf_scale` (`CNode.leavesAt`) — both are proved of the tree `batch_create` builds
+(`batchCreate_wf`, `batchCreate_leavesAt`) and evaluated on the real tree on every run — and for every metric, the
+model ANSWERS (its fuel `CNode.queryFuel top = height + innerScale + 1` suffices, no larger fuel gives another
+answer, the undefined `children[0]` of a childless query node is never read: `cover_query_fuel_suffices`), every
+query sample gets a result, and every result `q :: cands` has duplicate-free candidates containing every sample near
+`q` (`CoverTree.Near`: no `K0 = k+1` distinct samples are all strictly closer) — `cover_query_exact`; together with
+the wrapper this gives exact neighbour lists — `cover_tree_exact`; chained with the construction —
+`cover_tree_end_to_end`, `cover_tree_total`.
 Ingredients: the `upper_bound` array is justified at every step, every pruning decision is sound, the traversal
-loses no node (live-set invariant through `descend`, the copy loops and the recursion).  The theorem is about
-answers (`= some res`); that the fuel of the model suffices is not proved (the driver never saw `mq=fuel`).
-`batch_create` is modelled and proved to deliver `wfTree` below (`batchCreate_wf`, `cover_tree_end_to_end_partial`); `halfsort` is a parameter of the
-model and the theorems hold for every `hsort` returning a permutation of its argument.  For the copy bound with
-`query_chi->max_dist` counted once — the code before the repair — the statement is refuted below. -/
+loses no node (live-set invariant through `descend`, the copy loops and the recursion); `max_scale` never exceeds
+the largest scale of a reference node with children, and every frame descends one scale or one level of the query tree.
+`halfsort` is a parameter of the model and the theorems hold for every `hsort` returning a permutation of its
+argument.  For the copy bound with `query_chi->max_dist` counted once — the code before the repair — the statement
+is refuted below. -/
 
 namespace CoverQuery
 open TapkeeVerif.CoverTree
@@ -209,47 +215,60 @@ theorem cover_filter_sound (hm : IsMetric δ) {q r : Nat} {ub : List K} {Off : L
 
 end
 
-/-- **`cover_query_exact_partial`** (`_partial`: the full statement would also say that the fuelled model answers; it is
-    a statement about answers `= some res` only — `none` stands both for exhausted fuel and for an inner query node without
-    children, neither of which is proved impossible here;
-    that the fuel suffices is not proved — `exTree_query` shows an answer) : on a well-formed tree over the samples
-    `0..N-1` (with at least two samples, so that the top node has children) and for every metric, if the batch
-    query answers then every sample `q` has a result
-    and every result is `q :: cands` with `cands` duplicate free, inside the sample set and containing every
-    sample near `q`. -/
-theorem cover_query_exact_partial {K : Type} [LinearOrder K] [AddCommGroup K] [IsOrderedAddMonoid K] {δ : Nat → Nat → K}
+/-- **`cover_query_fuel_suffices`** : the fuel of the query model suffices and the answer does not depend on it.
+    On EVERY tree whose childless nodes all carry `leafScale` (no other hypothesis: any callback, any `K0`, any
+    `hsort` returning a permutation), the batch query — which runs with the fuel `top.queryFuel`
+    `= top.height + top.innerScale + 1` computed from the tree — answers (`some res`: neither "out of fuel" nor the
+    undefined split of a childless query node), and the model run with ANY fuel `≥ top.queryFuel` returns that same
+    `res`. -/
+theorem cover_query_fuel_suffices {K : Type} [LinearOrder K] [AddCommGroup K] [IsOrderedAddMonoid K]
+    (δ : Nat → Nat → K) (K0 leafScale : Nat) {top : CNode K} {hsort : List (DN K) → List (DN K)}
+    (hperm : ∀ l, (hsort l).Perm l) (hleaf : CNode.leavesAt leafScale top = true) :
+    ∃ res, batchQuery δ hsort K0 leafScale top = some res ∧
+      ∀ fuel, top.queryFuel ≤ fuel → batchQueryFuel δ hsort K0 leafScale fuel top = some res :=
+  batchQuery_total K0 leafScale (fun l _ he => (hperm l).mem_iff.1 he) hleaf
+
+/-- the answer, when there is one, is the same for every fuel (no hypotheses at all) -/
+theorem cover_query_fuel_mono {K : Type} [LinearOrder K] [AddCommGroup K] [IsOrderedAddMonoid K]
+    (δ : Nat → Nat → K) (K0 leafScale : Nat) {top : CNode K} {hsort : List (DN K) → List (DN K)} {fuel fuel' : Nat}
+    (hle : fuel ≤ fuel') {res : List (List Nat)} (h : batchQueryFuel δ hsort K0 leafScale fuel top = some res) :
+    batchQueryFuel δ hsort K0 leafScale fuel' top = some res :=
+  internalBatch_fuel_mono leafScale hle h
+
+/-- **`cover_query_exact`** (total correctness of the batch query) : on a well-formed tree over the samples
+    `0..N-1` (with at least two samples, so that the top node has children) whose childless nodes carry `leafScale`,
+    and for every metric, the batch query answers, every sample `q` has a result, and every result is `q :: cands`
+    with `cands` duplicate free, inside the sample set and containing every sample near `q`. -/
+theorem cover_query_exact {K : Type} [LinearOrder K] [AddCommGroup K] [IsOrderedAddMonoid K] {δ : Nat → Nat → K}
     (hm : IsMetric δ) {K0 : Nat} (hK : 1 ≤ K0) {N : Nat} (leafScale : Nat) {top : CNode K}
     {hsort : List (DN K) → List (DN K)} (hperm : ∀ l, (hsort l).Perm l)
-    (hwf : wfTree δ N top = true) (htopc : top.children ≠ []) {res : List (List Nat)}
-    (h : batchQuery δ hsort K0 leafScale top = some res) :
-    (∀ r ∈ res, ∃ q ∈ top.leaves, ∃ cands, r = q :: cands ∧
+    (hwf : wfTree δ N top = true) (htopc : top.children ≠ []) (hleaf : CNode.leavesAt leafScale top = true) :
+    ∃ res, batchQuery δ hsort K0 leafScale top = some res ∧
+      (∀ r ∈ res, ∃ q ∈ top.leaves, ∃ cands, r = q :: cands ∧
         (∀ c, Near δ (List.range N) K0 q c → c ∈ cands) ∧ cands.Nodup ∧ ∀ c ∈ cands, c ∈ List.range N) ∧
-      ∀ q ∈ top.leaves, ∃ r ∈ res, r.head? = some q :=
-  batchQuery_good hm hK leafScale hperm hwf htopc h
+      ∀ q ∈ top.leaves, ∃ r ∈ res, r.head? = some q := by
+  obtain ⟨res, h, _⟩ := cover_query_fuel_suffices δ K0 leafScale hperm hleaf
+  exact ⟨res, h, batchQuery_good hm hK leafScale hperm hwf htopc h⟩
 
-/-- **`cover_tree_exact_partial`** (partial correctness, as `cover_query_exact_partial`) : the cover-tree neighbour search is exact —
-    for every well-formed tree, every metric,
-    every `k < N`, every result of the batch query and every `partial_sort` outcome of the wrapper, the list
+/-- **`cover_tree_exact`** (total correctness) : the cover-tree neighbour search is exact — for every well-formed
+    tree with childless nodes at `leafScale`, every metric, every `k < N`: the batch query answers, EVERY sample
+    `q < N` has a result `q :: cands`, and for every result and every `partial_sort` outcome of the wrapper the list
     returned for sample `q` is the exact k-NN list of `q`. -/
-theorem cover_tree_exact_partial {K : Type} [LinearOrder K] [AddCommGroup K] [IsOrderedAddMonoid K] {δ : Nat → Nat → K}
+theorem cover_tree_exact {K : Type} [LinearOrder K] [AddCommGroup K] [IsOrderedAddMonoid K] {δ : Nat → Nat → K}
     (hm : IsMetric δ) {k N : Nat} (hk : k < N) (leafScale : Nat) {top : CNode K}
     {hsort : List (DN K) → List (DN K)} (hperm : ∀ l, (hsort l).Perm l)
-    (hwf : wfTree δ N top = true) (htopc : top.children ≠ []) {res : List (List Nat)}
-    (h : batchQuery δ hsort (k + 1) leafScale top = some res) {q : Nat} {cands l : List Nat} (hr : q :: cands ∈ res)
-    {lt : K × Nat → K × Nat → Bool} (hlt : ∀ a b : K × Nat, lt b a = false → a.1 ≤ b.1)
-    (hl : CoverOut δ lt q k cands l) : IsExactKnn δ (List.range N) k q l := by
-  have hg := batchQuery_good hm (by omega : 1 ≤ k + 1) leafScale hperm hwf htopc h
-  obtain ⟨q', hq', cands', heq, hgc⟩ := hg.1 _ hr
-  simp only [List.cons.injEq] at heq
-  obtain ⟨rfl, rfl⟩ := heq
-  have hqN : q ∈ List.range N := by
-    unfold wfTree at hwf
-    simp only [Bool.and_eq_true, List.all_eq_true, decide_eq_true_eq] at hwf
-    exact List.mem_range.2 (hwf.2 q hq')
-  exact cover_wrapper_exact_near List.nodup_range hqN (by simpa using hk) hgc hlt hl
+    (hwf : wfTree δ N top = true) (htopc : top.children ≠ []) (hleaf : CNode.leavesAt leafScale top = true) :
+    ∃ res, batchQuery δ hsort (k + 1) leafScale top = some res ∧
+      (∀ q, q < N → ∃ cands, q :: cands ∈ res) ∧
+      ∀ (q : Nat) (cands l : List Nat) (lt : K × Nat → K × Nat → Bool), q :: cands ∈ res →
+        (∀ a b : K × Nat, lt b a = false → a.1 ≤ b.1) → CoverOut δ lt q k cands l →
+        IsExactKnn δ (List.range N) k q l := by
+  obtain ⟨res, h, _⟩ := cover_query_fuel_suffices δ (k + 1) leafScale hperm hleaf
+  exact ⟨res, h, good_results_exact hk hwf
+    (batchQuery_good hm (by omega : 1 ≤ k + 1) leafScale hperm hwf htopc h)⟩
 
-/-! non-vacuity of `cover_query_exact_partial` / `cover_tree_exact_partial`: the tree the real `batch_create` builds for the four
-    samples 0, 3, 4, 9 of the integer line (dumped by the harness), `K0 = 2` (k = 1) -/
+/-! non-vacuity of `cover_query_fuel_suffices` / `cover_query_exact` / `cover_tree_exact`: the tree the real `batch_create`
+    builds for the four samples 0, 3, 4, 9 of the integer line (dumped by the harness), `K0 = 2` (k = 1) -/
 
 /-- `|x_a - x_b|` for the samples 0, 3, 4, 9 (indices above 3 stand for sample 3: a pseudo-metric on all of ℕ) -/
 def exδ (a b : Nat) : Int := absI (([0, 3, 4, 9] : List Int).getD (min a 3) 0 - ([0, 3, 4, 9] : List Int).getD (min b 3) 0)
@@ -269,17 +288,48 @@ theorem exδ_metric : IsMetric exδ := by
   · rw [hfin x z, hfin x y, hfin y z]
     exact htri ⟨min x 3, hlt x⟩ ⟨min y 3, hlt y⟩ ⟨min z 3, hlt z⟩
 
-/-- the hypotheses hold and the model answers (the result equals the candidate sets the real query returned) -/
+/-- the hypotheses hold, and the model's answer equals the candidate sets the real query returned -/
 theorem exTree_query :
-    wfTree exδ 4 exTree = true ∧ exTree.children ≠ [] ∧
+    wfTree exδ 4 exTree = true ∧ exTree.children ≠ [] ∧ CNode.leavesAt 100 exTree = true ∧
       batchQuery exδ id 2 100 exTree = some [[3, 3, 2], [2, 1, 2], [1, 1, 2], [0, 0, 1]] := by decide
 
-/-- hence, e.g., the neighbour list selected for sample 3 (x = 9) from its candidates `[3, 2]` is its exact 1-NN list -/
-example : IsExactKnn exδ (List.range 4) 1 3 (coverSelect exδ 3 1 [3, 2]) :=
-  cover_tree_exact_partial exδ_metric (by decide) 100 (fun l => List.Perm.refl l) exTree_query.1 exTree_query.2.1
-    exTree_query.2.2 (by decide) (coverSelect_admissible exδ 3 1 [3, 2]).2 (coverSelect_admissible exδ 3 1 [3, 2]).1
+/-- `cover_query_fuel_suffices` on this tree (height 4, largest scale of a node with children 9: fuel 14); the bound
+    is attained here — with one unit less the model runs out of fuel -/
+example : exTree.queryFuel = 14 ∧ batchQueryFuel exδ id 2 100 13 exTree = none ∧
+    ∀ fuel, 14 ≤ fuel →
+      batchQueryFuel exδ id 2 100 fuel exTree = some [[3, 3, 2], [2, 1, 2], [1, 1, 2], [0, 0, 1]] := by
+  refine ⟨by decide, by decide, fun fuel hf => ?_⟩
+  obtain ⟨res, h1, h2⟩ := cover_query_fuel_suffices exδ 2 100 (top := exTree) (hsort := id)
+    (fun l => List.Perm.refl l) exTree_query.2.2.1
+  rw [exTree_query.2.2.2] at h1
+  rw [h2 fuel hf, ← h1]
 
-/-! ### cover tree construction: `batchCreate_wf`, `cover_tree_end_to_end_partial`
+/-- the hypothesis `leavesAt` cannot be dropped: on a childless node of another scale the real query would read
+    `children[0]` of a leaf, and the model reports the error whatever the fuel -/
+example : ∀ fuel, batchQueryFuel exδ id 2 100 fuel (.mk 0 0 0 0 [] : CNode Int) = none := by
+  intro fuel
+  cases fuel with
+  | zero => rfl
+  | succ n => rfl
+
+/-- `cover_query_exact` applies: the batch query answers and every sample's candidates contain all its near samples -/
+example : ∃ res, batchQuery exδ id 2 100 exTree = some res ∧
+    (∀ r ∈ res, ∃ q ∈ exTree.leaves, ∃ cands, r = q :: cands ∧
+      (∀ c, Near exδ (List.range 4) 2 q c → c ∈ cands) ∧ cands.Nodup ∧ ∀ c ∈ cands, c ∈ List.range 4) ∧
+    ∀ q ∈ exTree.leaves, ∃ r ∈ res, r.head? = some q :=
+  cover_query_exact exδ_metric (by decide) 100 (fun l => List.Perm.refl l) exTree_query.1 exTree_query.2.1
+    exTree_query.2.2.1
+
+/-- hence, e.g., the neighbour list selected for sample 3 (x = 9) from its candidates `[3, 2]` is its exact 1-NN list -/
+example : IsExactKnn exδ (List.range 4) 1 3 (coverSelect exδ 3 1 [3, 2]) := by
+  obtain ⟨res, h, _, hex⟩ := cover_tree_exact exδ_metric (k := 1) (N := 4) (by decide) 100
+    (hsort := id) (fun l => List.Perm.refl l) exTree_query.1 exTree_query.2.1 exTree_query.2.2.1
+  rw [exTree_query.2.2.2, Option.some.injEq] at h
+  subst h
+  exact hex 3 [3, 2] _ pairLt (by decide) (coverSelect_admissible exδ 3 1 [3, 2]).2
+    (coverSelect_admissible exδ 3 1 [3, 2]).1
+
+/-! ### cover tree construction: `batchCreate_wf`, `batchCreate_leavesAt`, `cover_tree_end_to_end`, `cover_tree_total`
 
 Subject: `CoverBuild.batchCreate` — the statement-by-statement model of `batch_create` / `batch_insert` / `split` /
 `dist_split` / `max_set` / `set_leaf_scale` (code as of the repairs F-COVER-ZERO e2bbcb6, F-COVER-SCALE e30d89e and
@@ -308,7 +358,7 @@ theorem batchCreate_leaves {δ : Nat → Nat → K} (hm : IsMetric δ) {getScale
   batchCreate_good hm.self hm.nonneg hpos h
 
 /-- **`batchCreate_wf`** : the tree `batch_create` returns for the samples `0 .. N-1` (in any order) satisfies
-    `wfTree` — the hypothesis of `cover_query_exact_partial` / `cover_tree_exact_partial`: every sample occurs exactly once, the first
+    `wfTree` — the hypothesis of `cover_query_exact` / `cover_tree_exact`: every sample occurs exactly once, the first
     child carries the parent's point, `parent_dist` are true distances, `max_dist` bounds the distance to every
     descendant, scales increase towards the leaves.  For every (pseudo-)metric, every `N`, every `getScale`, every
     non-negative `distOfScale`. -/
@@ -318,23 +368,35 @@ theorem batchCreate_wf {δ : Nat → Nat → K} (hm : IsMetric δ) {getScale : K
     wfTree δ N t = true :=
   batchCreate_wf' hm.self hm.nonneg hpos hpts h
 
-/-- **`cover_tree_end_to_end_partial`** (partial correctness in the query's fuel, as `cover_tree_exact_partial`) : construction, batch
-    query and wrapper chained — for every metric, every `N ≥ 2`, every `k < N`, every `getScale`, every non-negative
-    `distOfScale`: if `batch_create` returns `(top, leaf_scale)` and the batch query on `top` (as query and reference
-    tree, with that `leaf_scale`) answers, then the list the wrapper selects for sample `q` is the exact k-NN list. -/
-theorem cover_tree_end_to_end_partial {δ : Nat → Nat → K} (hm : IsMetric δ) {getScale : K → Int} {distOfScale : Int → K}
+/-- **`batchCreate_leavesAt`** : every childless node of the tree `batch_create` returns carries the `leaf_scale` it
+    returns (what `set_leaf_scale` establishes; `batch_insert` itself creates childless nodes at scale 100 only) — the
+    hypothesis of `cover_query_fuel_suffices`: the query never splits a childless query node.  For every
+    (pseudo-)metric, every list of points, every `getScale`, every non-negative `distOfScale`. -/
+theorem batchCreate_leavesAt {δ : Nat → Nat → K} (hm : IsMetric δ) {getScale : K → Int} {distOfScale : Int → K}
+    (hpos : ∀ s, 0 ≤ distOfScale s) {fuel : Nat} {points : List Nat} {t : CNode K} {ls : Nat}
+    (h : batchCreate δ getScale distOfScale fuel points = some (t, ls)) : CNode.leavesAt ls t = true :=
+  batchCreate_leavesAt' hm.self hm.nonneg hpos h
+
+/-- **`cover_tree_end_to_end`** (total in the query) : construction, batch query and wrapper chained — for every
+    metric, every `N ≥ 2`, every `k < N`, every `getScale`, every non-negative `distOfScale`: if `batch_create` returns
+    `(top, leaf_scale)` then the batch query on `top` (as query and reference tree, with that `leaf_scale`) ANSWERS,
+    every sample `q < N` has a result `q :: cands`, and for every result the list the wrapper selects for sample `q` is
+    the exact k-NN list.  No certificate is involved: `wfTree` and `leavesAt` are proved of the tree built. -/
+theorem cover_tree_end_to_end {δ : Nat → Nat → K} (hm : IsMetric δ) {getScale : K → Int} {distOfScale : Int → K}
     (hpos : ∀ s, 0 ≤ distOfScale s) {k N : Nat} (hk : k < N) (hN : 2 ≤ N) {fuel : Nat} {top : CNode K} {ls : Nat}
     (hb : batchCreate δ getScale distOfScale fuel (List.range N) = some (top, ls))
-    {hsort : List (DN K) → List (DN K)} (hperm : ∀ l, (hsort l).Perm l) {res : List (List Nat)}
-    (h : batchQuery δ hsort (k + 1) ls top = some res) {q : Nat} {cands l : List Nat} (hr : q :: cands ∈ res)
-    {lt : K × Nat → K × Nat → Bool} (hlt : ∀ a b : K × Nat, lt b a = false → a.1 ≤ b.1)
-    (hl : CoverOut δ lt q k cands l) : IsExactKnn δ (List.range N) k q l := by
+    {hsort : List (DN K) → List (DN K)} (hperm : ∀ l, (hsort l).Perm l) :
+    ∃ res, batchQuery δ hsort (k + 1) ls top = some res ∧
+      (∀ q, q < N → ∃ cands, q :: cands ∈ res) ∧
+      ∀ (q : Nat) (cands l : List Nat) (lt : K × Nat → K × Nat → Bool), q :: cands ∈ res →
+        (∀ a b : K × Nat, lt b a = false → a.1 ≤ b.1) → CoverOut δ lt q k cands l →
+        IsExactKnn δ (List.range N) k q l := by
   have hwf := batchCreate_wf hm hpos (List.Perm.refl _) hb
   have hlen : top.leaves.length = N := by
     unfold wfTree at hwf
     simp only [Bool.and_eq_true, beq_iff_eq] at hwf
     exact hwf.1.2
-  exact cover_tree_exact_partial hm hk ls hperm hwf (children_ne_nil_of_leaves (by omega)) h hr hlt hl
+  exact cover_tree_exact hm hk ls hperm hwf (children_ne_nil_of_leaves (by omega)) (batchCreate_leavesAt hm hpos hb)
 
 /-- **`batchCreate_fuel_suffices`** (the model reaches no error state and its fuel suffices) : the construction
     answers — no `last()` / `decr()` of an empty `dist` stack, no negative scale, none of the three counters (recursion
@@ -375,6 +437,25 @@ theorem batchCreate_total_wf {δ : Nat → Nat → K} (hm : IsMetric δ) {getSca
   obtain ⟨t, ls, h⟩ := batchCreate_fuel_suffices hm hpos hne hsc hfuel
   exact ⟨t, ls, h, batchCreate_wf hm hpos hpts h⟩
 
+/-- **`cover_tree_total`** (total correctness of the cover-tree neighbour search, construction included) : for every
+    metric, every `N ≥ 2`, every `k < N`, scale functions with `0 ≤ distOfScale` that bracket the positive distances
+    (`ScalesOk`, the termination property of `pow` / `log`) and enough construction fuel: `batch_create` returns a tree,
+    the batch query on it answers, every sample has a result, and the wrapper's list for every result is the exact
+    k-NN list.  Remaining trusted ground: the scale functions as tabulated from the real run, exact arithmetic. -/
+theorem cover_tree_total {δ : Nat → Nat → K} (hm : IsMetric δ) {getScale : K → Int} {distOfScale : Int → K}
+    (hpos : ∀ s, 0 ≤ distOfScale s) {k N : Nat} (hk : k < N) (hN : 2 ≤ N) {sLow sTop : Int}
+    (hsc : ScalesOk δ getScale distOfScale (List.range N) sLow sTop) {fuel : Nat}
+    (hfuel : (sTop - sLow).toNat + 2 ≤ fuel) {hsort : List (DN K) → List (DN K)} (hperm : ∀ l, (hsort l).Perm l) :
+    ∃ top ls res, batchCreate δ getScale distOfScale fuel (List.range N) = some (top, ls) ∧
+      batchQuery δ hsort (k + 1) ls top = some res ∧
+      (∀ q, q < N → ∃ cands, q :: cands ∈ res) ∧
+      ∀ (q : Nat) (cands l : List Nat) (lt : K × Nat → K × Nat → Bool), q :: cands ∈ res →
+        (∀ a b : K × Nat, lt b a = false → a.1 ≤ b.1) → CoverOut δ lt q k cands l →
+        IsExactKnn δ (List.range N) k q l := by
+  obtain ⟨top, ls, hb, _⟩ := batchCreate_total_wf hm hpos (by omega : 1 ≤ N) (List.Perm.refl _) hsc hfuel
+  obtain ⟨res, hq, hall, hex⟩ := cover_tree_end_to_end hm hpos hk hN hb hperm
+  exact ⟨top, ls, res, hb, hq, hall, hex⟩
+
 /-- **F-COVER-TOP, Lean-checked**: with the top scale `get_scale(max_dist)` taken as it is (the code before the
     repair) the construction drops samples as soon as `dist_of_scale(get_scale(d)) < d` — witness: two samples at
     distance 3 and scale functions with `distOfScale (getScale 3) = 2` (the real functions do this by rounding at
@@ -386,7 +467,7 @@ theorem cover_top_uncovered_drops :
 
 end
 
-/-! non-vacuity of `batchCreate_wf` / `cover_tree_end_to_end_partial`: six samples 0, 3, 4, 9, 9, 20 of the integer line (two of
+/-! non-vacuity of `batchCreate_wf` / `batchCreate_leavesAt` / `cover_tree_end_to_end` / `cover_tree_total`: six samples 0, 3, 4, 9, 9, 20 of the integer line (two of
     them coincide), the scale functions tabulated from the real `get_scale` / `dist_of_scale` (`floor(1.3^s)`: the
     distances are integers) — the model returns exactly the tree the real `batch_create` builds (dumped by the
     harness: `knn method=covertree k=1 cb=plain metric=L1 pts=0;3;4;9;9;20 dump=1`) -/
@@ -435,12 +516,28 @@ example : ∃ t ls, CoverBuild.batchCreate ex6δ ex6Gs ex6Ds 15 (List.range 6) =
 example : wfTree ex6δ 6 ex6Tree = true :=
   batchCreate_wf ex6δ_metric (fun _ => Int.natCast_nonneg _) (List.Perm.refl _) ex6_build.1
 
+/-- … its childless nodes carry the leaf scale (by the theorem) … -/
+example : CNode.leavesAt 100 ex6Tree = true :=
+  batchCreate_leavesAt ex6δ_metric (fun _ => Int.natCast_nonneg _) ex6_build.1
+
 /-- … and, e.g., the list selected for sample 3 (x = 9, coinciding with sample 4) from its candidates `[4, 3]` is its
-    exact 1-NN list -/
-example : IsExactKnn ex6δ (List.range 6) 1 3 (coverSelect ex6δ 3 1 [4, 3]) :=
-  cover_tree_end_to_end_partial ex6δ_metric (fun _ => Int.natCast_nonneg _) (by decide) (by decide) ex6_build.1
-    (fun l => List.Perm.refl l) ex6_build.2 (by decide) (coverSelect_admissible ex6δ 3 1 [4, 3]).2
+    exact 1-NN list (`cover_tree_end_to_end`) -/
+example : IsExactKnn ex6δ (List.range 6) 1 3 (coverSelect ex6δ 3 1 [4, 3]) := by
+  obtain ⟨res, h, _, hex⟩ := cover_tree_end_to_end ex6δ_metric (fun _ => Int.natCast_nonneg _) (k := 1) (by decide)
+    (by decide) ex6_build.1 (hsort := id) (fun l => List.Perm.refl l)
+  rw [ex6_build.2, Option.some.injEq] at h
+  subst h
+  exact hex 3 [4, 3] _ pairLt (by decide) (coverSelect_admissible ex6δ 3 1 [4, 3]).2
     (coverSelect_admissible ex6δ 3 1 [4, 3]).1
+
+/-- the hypotheses of `cover_tree_total` are met by the six samples (`sLow = -1`, `sTop = 12`, fuel 15) -/
+example : ∃ top ls res, CoverBuild.batchCreate ex6δ ex6Gs ex6Ds 15 (List.range 6) = some (top, ls) ∧
+    batchQuery ex6δ id 2 ls top = some res ∧ (∀ q, q < 6 → ∃ cands, q :: cands ∈ res) ∧
+    ∀ (q : Nat) (cands l : List Nat) (lt : Int × Nat → Int × Nat → Bool), q :: cands ∈ res →
+      (∀ a b : Int × Nat, lt b a = false → a.1 ≤ b.1) → CoverOut ex6δ lt q 1 cands l →
+      IsExactKnn ex6δ (List.range 6) 1 q l :=
+  cover_tree_total ex6δ_metric (fun _ => Int.natCast_nonneg _) (by decide) (by decide)
+    (sLow := -1) (sTop := 12) (by unfold CoverBuild.ScalesOk; decide) (by decide) (fun l => List.Perm.refl l)
 
 /-- **F-COVER-COPY, Lean-checked**: with `query_chi->max_dist` counted once (the code before the repair) the
     copy-step pruning statement is false — witness: 7 samples in 3-D under L∞ found on the real code
